@@ -183,7 +183,12 @@ def run(loader, R, tier):
             ("R2.5", "RCPBasicKeyLess: hash order, then eq, then "
                      "__cmp__ == -1"),
             ("R2.6", "Basic::__cmp__: type-code order, compare() only under "
-                     "equal type codes")):
+                     "equal type codes"),
+            ("R2.7", "compare() returns the literal 0 only on paths whose "
+                     "conditions are equalities of corresponding members"),
+            ("R2.8", "every comparison inside compare() relates "
+                     "corresponding parts of the two operands (antisymmetry "
+                     "by construction)")):
         R.rule(rid, txt)
     R.trusted += ["clang 14 AST", "std::string/integer_class/rational_class "
                   "operator< and == are total orders consistent with each "
@@ -359,6 +364,160 @@ def run(loader, R, tier):
     # ---------------------------------------------------------------- R2.5
     kl = prog.one_fn("SymEngine::RCPBasicKeyLess::operator()")
     check_keyless(prog, P, kl, R)
+
+    # --------------------------------------------------------- R2.7 / R2.8
+    symmetry_rules(prog, P, R)
+
+
+PRIMS = {"compare", "__cmp__", "unified_compare", "ordered_compare",
+         "unordered_compare", "eq", "neq", "unified_eq"}
+RELOPS = {"==", "!=", "<", ">", "<=", ">="}
+# comparisons that are asymmetric by design (one named site each)
+ASYMMETRIC_OK = {
+    "SymEngine::Rational::compare":
+        "the Integer branch compares the rational with the integer converted "
+        "to a rational (mixed Integer/Rational order, operands of different "
+        "classes)",
+}
+
+
+def compare_env(P, f):
+    """aliases of locals: references, sorted copies built from a begin/end
+    range, range-for variables"""
+    env = {}
+    for n in walk(f["body"]):
+        if n.get("k") == "decl":
+            sym.bind_locals(n, P, env)
+            for v in n.get("v", ()):
+                i = v.get("i")
+                if i and i.get("k") == "ctor":
+                    a = [x for x in i.get("a", ()) if x.get("k") != "defarg"]
+                    if len(a) == 2 and all(
+                            x.get("k") == "mcall" for x in a) \
+                            and a[0].get("n") in ("begin", "cbegin") \
+                            and a[1].get("n") in ("end", "cend"):
+                        r = P.norm(a[0].get("o"), env)
+                        if r:
+                            env[v["n"]] = r
+        elif n.get("k") == "forr":
+            r = P.norm(n.get("r"), env) if n.get("r") else None
+            vn = n.get("vn") or (n.get("v") or {}).get("n") \
+                if isinstance(n.get("v"), dict) else n.get("vn")
+            if r and vn:
+                env[vn] = (r[0], r[1] + ("[]",))
+    return env
+
+
+def symmetry_rules(prog, P, R):
+    ncmp = nprim = nzero = 0
+    for u, f in sorted(prog.functions.items(),
+                       key=lambda kv: kv[1]["qn"]):
+        if f.get("n") != "compare" or strip_type(f.get("ret")) != "int" \
+                or f.get("dependent") or f.get("tk") == "pattern" \
+                or not f.get("body") or not f.get("cls") \
+                or len(f.get("params", ())) != 1:
+            continue
+        ncmp += 1
+        oroot = other_root(f)
+        env = compare_env(P, f)
+        fk = short(f["qn"])
+
+        def side(e):
+            """'this' / 'other' / 'both' / None from the roots read in e"""
+            roots = set()
+            for r in P.reads(e, env):
+                if r[0] == "this":
+                    roots.add("this")
+                elif r[0] == oroot:
+                    roots.add("other")
+            if len(roots) == 2:
+                return "both"
+            return next(iter(roots)) if roots else None
+
+        # ------------------------------------------------------------ R2.8
+        for n in walk(f["body"]):
+            ops = None
+            if n.get("k") == "call" and n.get("n") in PRIMS \
+                    and len(n.get("a", ())) == 2:
+                ops = n["a"]
+            elif n.get("k") == "mcall" and n.get("n") in PRIMS \
+                    and len(n.get("a", ())) == 1:
+                ops = [n["o"], n["a"][0]]
+            elif n.get("k") in ("bin", "op") and n.get("op") in RELOPS \
+                    and len(n.get("a", ())) == 2:
+                ops = n["a"]
+            if not ops:
+                continue
+            sa, sb = side(ops[0]), side(ops[1])
+            if not (sa and sb) or (sa == sb and sa != "both"):
+                continue            # does not relate the two operands
+            nprim += 1
+            ra, rb = P.norm(ops[0], env), P.norm(ops[1], env)
+            key = "%s@%s" % (fk, n.get("l"))
+            mirror = (ra is not None and rb is not None
+                      and {ra[0], rb[0]} == {"this", oroot}
+                      and ra[1] == rb[1])
+            R.instance("R2.8", key, sample={"comparison": show(n)[:80],
+                                            "mirror": mirror})
+            if mirror:
+                continue
+            if f["qn"] in ASYMMETRIC_OK:
+                R.exception(f["qn"], "R2.8: " + ASYMMETRIC_OK[f["qn"]])
+                continue
+            R.violation(
+                "R2.8", fk, prog.loc(f, n.get("l")),
+                "%s: `%s` does not relate corresponding parts of the two "
+                "operands (left: %s, right: %s): swapping the operands does "
+                "not mirror the decision, so cmp(a,b) = -cmp(b,a) is not "
+                "guaranteed" % (fk, show(n)[:80],
+                                "/".join((ra[0],) + ra[1]) if ra else sa,
+                                "/".join((rb[0],) + rb[1]) if rb else sb))
+
+        # ------------------------------------------------------------ R2.7
+        try:
+            outs = sym.enumerate_paths(f["body"])
+        except AnalysisBroken:
+            R.undecided_obligation("R2.7", fk, "path explosion")
+            continue
+        for o in outs:
+            if o.kind != "return" or o.expr is None:
+                continue
+            e = o.expr
+            while e.get("k") == "cast":
+                e = e["a"][0]
+            if not (e.get("k") == "lit" and str(e.get("v")) == "0"):
+                continue
+            nzero += 1
+            key = "%s@%s" % (fk, o.line)
+            R.instance("R2.7", key)
+            for c, pol in [g for g in o.facts if g[0] != "case"]:
+                if c.get("k") not in ("bin", "op") \
+                        or c.get("op") not in RELOPS \
+                        or len(c.get("a", ())) != 2:
+                    continue
+                both = {side(c["a"][0]), side(c["a"][1])}
+                if not ({"this", "other"} <= both or "both" in both):
+                    continue
+                op = c["op"]
+                differ = (op == "==" and not pol) or (op == "!=" and pol) \
+                    or (op in ("<", ">") and pol) \
+                    or (op in ("<=", ">=") and not pol)
+                strict_like = op in ("<", ">", "<=", ">=") and pol \
+                    and side(c["a"][0]) == "both"
+                if differ or strict_like or (
+                        op in ("<", "<=", ">", ">=") and pol
+                        and "both" in both):
+                    R.violation(
+                        "R2.7", fk, prog.loc(f, o.line),
+                        "%s returns 0 at line %s on a path where `%s` is "
+                        "%s: the operands are not established equal there, "
+                        "so unequal objects compare as 0" % (
+                            fk, o.line, show(c)[:80],
+                            "true" if pol else "false"))
+                    break
+    R.floor("compare() overrides checked for symmetry", ncmp, 55)
+    R.floor("comparisons relating both operands", nprim, 120)
+    R.floor("literal-zero returns", nzero, 12)
 
 
 def is_typecode(f, e):
